@@ -366,10 +366,29 @@ impl GlueRatio {
     }
 
     pub fn from_float_str(s: &str) -> Option<Self> {
-        let s = format!("{s}pt");
-        let num = common::Scaled::parse_from_string(&s).ok()?;
+        // Glue ratios are printed with an integer part of up to 20000 (TeX.2021.186).
+        // This is more than the largest dimension, so the dimension parser, which
+        // returns an error for anything bigger than 16383.99998pt, can't be used here.
+        let (negative, s) = match s.strip_prefix('-') {
+            Some(s) => (true, s),
+            None => (false, s),
+        };
+        let (int_str, frac_str) = s.split_once('.').unwrap_or((s, ""));
+        if !int_str.chars().all(|c| c.is_ascii_digit()) {
+            return None;
+        }
+        let integer_part: i32 = int_str.parse().ok()?;
+        if integer_part > 32766 {
+            return None;
+        }
+        let frac_digits: Option<Vec<u8>> = frac_str
+            .chars()
+            .map(|c| c.to_digit(10).map(|d| d as u8))
+            .collect();
+        let fractional_part = common::Scaled::from_decimal_digits(&frac_digits?);
+        let num = common::Scaled::ONE * integer_part + fractional_part;
         Some(Self {
-            num,
+            num: if negative { -num } else { num },
             den: common::Scaled::ONE,
         })
     }
